@@ -1,6 +1,6 @@
 //! The probe suite: oracles run after every step.
 
-use std::collections::{BTreeMap, BTreeSet};
+use std::collections::BTreeSet;
 
 use crate::comps::reg;
 use crate::driver::WorldDriver;
@@ -183,26 +183,35 @@ impl<'c, W: WorldDriver> Session<'c, W> {
         if zu > 0 {
             return Err(self.fail(&["C04"], "double-drop-zst", format!("more zero-sized tracked components dropped than were ever created ({} underflows)", zu)));
         }
-        let mut owned: BTreeSet<u64> = BTreeSet::new();
+        let mut owned: Vec<u64> = Vec::new();
         for sim in &self.sims {
             for m in &sim.archs {
                 for e in m.live.values() {
                     for t in &e.trk {
-                        if *t != 0 && !owned.insert(*t) {
-                            return Err(self.fail(&["C04"], "harness-shared-id", format!("harness bug: id {} owned twice in the model", t)));
+                        if *t != 0 {
+                            owned.push(*t);
                         }
                     }
                 }
             }
         }
-        let live: BTreeSet<u64> = reg(|r| r.live.clone());
-        let missing: Vec<u64> = owned.difference(&live).copied().collect();
-        if !missing.is_empty() {
-            return Err(self.fail(&["C04"], "dropped-while-alive", format!("tracked component instance(s) {:?} were dropped while their entity is still alive", missing)));
+        owned.sort_unstable();
+        if owned.windows(2).any(|w| w[0] == w[1]) {
+            return Err(self.fail(&["C04"], "harness-shared-id", "harness bug: an id is owned twice in the model".into()));
         }
-        let extra: Vec<u64> = live.difference(&owned).copied().filter(|i| !self.leaked.contains(i)).collect();
-        if !extra.is_empty() {
-            return Err(self.fail(&["C04"], "leak", format!("tracked component instance(s) {:?} are still alive but no live entity owns them (leak)", extra)));
+        // fast path: same size and same elements
+        let same = reg(|r| r.live.len() == owned.len() + self.leaked.len() && owned.iter().all(|i| r.live.contains(i)));
+        if !same {
+            let live: BTreeSet<u64> = reg(|r| r.live.clone());
+            let owned: BTreeSet<u64> = owned.into_iter().collect();
+            let missing: Vec<u64> = owned.difference(&live).copied().collect();
+            if !missing.is_empty() {
+                return Err(self.fail(&["C04"], "dropped-while-alive", format!("tracked component instance(s) {:?} were dropped while their entity is still alive", missing)));
+            }
+            let extra: Vec<u64> = live.difference(&owned).copied().filter(|i| !self.leaked.contains(i)).collect();
+            if !extra.is_empty() {
+                return Err(self.fail(&["C04"], "leak", format!("tracked component instance(s) {:?} are still alive but no live entity owns them (leak)", extra)));
+            }
         }
         let want = self.expected_zst_live();
         let have = reg(|r| r.zst_live);
@@ -222,12 +231,27 @@ impl<'c, W: WorldDriver> Session<'c, W> {
 
     pub fn probe_sim(&mut self, si: usize, intensity: Intensity) -> R {
         let nh = self.sims[si].handles.len();
+        // large tables: every step probes the touched handles plus a rotating window, so that
+        // every handle is still probed regularly while the cost per step stays bounded
+        const HWIN: usize = 32;
+        const DWIN: usize = 12;
+        let windowed = intensity != Intensity::Full && nh > HWIN;
+        let start = if windowed { (self.rot * HWIN) % nh } else { 0 };
         for hi in 0..nh {
-            let full = intensity == Intensity::Full || (intensity == Intensity::Normal && self.touched.contains(&(si, hi)));
+            let touched = self.touched.contains(&(si, hi));
+            if windowed && !touched && (hi + nh - start) % nh >= HWIN {
+                continue;
+            }
+            let full = intensity == Intensity::Full || (intensity == Intensity::Normal && touched);
             self.probe_handle(si, hi, intensity, full)?;
         }
         let nd = self.sims[si].directs.len();
+        let dwindowed = intensity != Intensity::Full && nd > DWIN;
+        let dstart = if dwindowed { (self.rot * DWIN) % nd } else { 0 };
         for di in 0..nd {
+            if dwindowed && (di + nd - dstart) % nd >= DWIN {
+                continue;
+            }
             self.probe_direct(si, di, intensity)?;
         }
         Ok(())
@@ -236,38 +260,43 @@ impl<'c, W: WorldDriver> Session<'c, W> {
     /// Checks one lookup result with an entity key against the model.
     fn judge_entity_lookup(&mut self, si: usize, rec: &HandleRec, path: LookupPath, key: Key, res: Result<Option<Obs>, String>) -> R<Option<Obs>> {
         let a = rec.arch;
-        let live = self.sims[si].archs[a].live.get(&rec.raw).cloned();
         let name = self.infos[a].name;
         let obs = match res {
             Ok(o) => o,
-            Err(m) => return Err(self.fail(&["C01"], "lookup-panic", format!("{:?} with {} {:?} ({}) in {} panicked: {}", path, key.kind_name(), rec.raw, if live.is_some() { "live" } else { "stale" }, name, m))),
-        };
-        match (live, obs) {
-            (None, None) => Ok(None),
-            (None, Some(o)) => Err(self.fail(&["C01"], "stale-accepted", format!("{:?} with {} accepted stale handle {:?} of {} (read back {:?})", path, key.kind_name(), rec.raw, name, o.raw))),
-            (Some(_), None) => Err(self.fail(&["C01"], "live-rejected", format!("{:?} with {} rejected live handle {:?} of {}", path, key.kind_name(), rec.raw, name))),
-            (Some(e), Some(o)) => {
-                if path.reads_values() {
-                    if o.raw != Some(rec.raw) {
-                        return Err(self.fail(&["C01"], "wrong-entity", format!("{:?} with {} {:?} in {} reached entity {:?}", path, key.kind_name(), rec.raw, name, o.raw)));
-                    }
-                    if o.vals != e.vals {
-                        return Err(self.fail(&["C02"], "wrong-values", format!("{:?} with {} {:?} in {} read stamps {:x?}, expected {:x?}", path, key.kind_name(), rec.raw, name, o.vals, e.vals)));
-                    }
-                    if o.trk != e.trk {
-                        return Err(self.fail(&["C02", "C04"], "wrong-instances", format!("{:?} with {} {:?} in {} read tracked instances {:?}, expected {:?}", path, key.kind_name(), rec.raw, name, o.trk, e.trk)));
-                    }
-                }
-                if let Some(ix) = o.index {
-                    let len = self.sims[si].archs[a].live.len();
-                    if ix >= len {
-                        return Err(self.fail(&["C01"], "index-out-of-range", format!("{:?} with {} {:?} in {} reported dense index {} with len {}", path, key.kind_name(), rec.raw, name, ix, len)));
-                    }
-                    self.mix_trace(ix as u64 ^ 0x1DE);
-                }
-                Ok(Some(o))
+            Err(m) => {
+                let live = self.sims[si].archs[a].live.contains_key(&rec.raw);
+                return Err(self.fail(&["C01"], "lookup-panic", format!("{:?} with {} {:?} ({}) in {} panicked: {}", path, key.kind_name(), rec.raw, if live { "live" } else { "stale" }, name, m)));
             }
+        };
+        // compare against the model without copying it; build the failure afterwards
+        let verdict: Option<(&'static [&'static str], &'static str, String)> = {
+            let m = &self.sims[si].archs[a];
+            match (m.live.get(&rec.raw), obs.as_ref()) {
+                (None, None) => None,
+                (None, Some(o)) => Some((&["C01"], "stale-accepted", format!("{:?} with {} accepted stale handle {:?} of {} (read back {:?})", path, key.kind_name(), rec.raw, name, o.raw))),
+                (Some(_), None) => Some((&["C01"], "live-rejected", format!("{:?} with {} rejected live handle {:?} of {}", path, key.kind_name(), rec.raw, name))),
+                (Some(e), Some(o)) => {
+                    if path.reads_values() && o.raw != Some(rec.raw) {
+                        Some((&["C01"], "wrong-entity", format!("{:?} with {} {:?} in {} reached entity {:?}", path, key.kind_name(), rec.raw, name, o.raw)))
+                    } else if path.reads_values() && o.vals != e.vals {
+                        Some((&["C02"], "wrong-values", format!("{:?} with {} {:?} in {} read stamps {:x?}, expected {:x?}", path, key.kind_name(), rec.raw, name, o.vals, e.vals)))
+                    } else if path.reads_values() && o.trk != e.trk {
+                        Some((&["C02", "C04"], "wrong-instances", format!("{:?} with {} {:?} in {} read tracked instances {:?}, expected {:?}", path, key.kind_name(), rec.raw, name, o.trk, e.trk)))
+                    } else if o.index.map(|ix| ix >= m.live.len()).unwrap_or(false) {
+                        Some((&["C01"], "index-out-of-range", format!("{:?} with {} {:?} in {} reported dense index {:?} with len {}", path, key.kind_name(), rec.raw, name, o.index, m.live.len())))
+                    } else {
+                        None
+                    }
+                }
+            }
+        };
+        if let Some((tags, sig, msg)) = verdict {
+            return Err(self.fail(tags, sig, msg));
         }
+        if let Some(ix) = obs.as_ref().and_then(|o| o.index) {
+            self.mix_trace(ix as u64 ^ 0x1DE);
+        }
+        Ok(obs)
     }
 
     pub fn probe_handle(&mut self, si: usize, hi: usize, intensity: Intensity, full: bool) -> R {
@@ -480,7 +509,8 @@ pub fn rep_invariant(d: &VerifDump, arch_id: u8) -> Result<(), String> {
         return Err(format!("free list has {} nodes, expected capacity - len = {}", n, d.capacity - d.len));
     }
     // live slots <-> dense handles
-    let mut dense_seen: BTreeMap<usize, usize> = BTreeMap::new();
+    let mut dense_seen: Vec<usize> = vec![usize::MAX; d.len];
+    let mut dense_n = 0usize;
     for (i, (idx, ver)) in d.slots.iter().enumerate() {
         if idx & FREE_BIT != 0 {
             if !seen[i] {
@@ -492,9 +522,11 @@ pub fn rep_invariant(d: &VerifDump, arch_id: u8) -> Result<(), String> {
         if di >= d.len {
             return Err(format!("live slot {} points to dense index {} >= len {}", i, di, d.len));
         }
-        if let Some(prev) = dense_seen.insert(di, i) {
-            return Err(format!("slots {} and {} both point to dense index {}", prev, i, di));
+        if dense_seen[di] != usize::MAX {
+            return Err(format!("slots {} and {} both point to dense index {}", dense_seen[di], i, di));
         }
+        dense_seen[di] = i;
+        dense_n += 1;
         let (key, ever) = d.entities[di];
         if (key >> 8) as usize != i || ever != *ver {
             return Err(format!("dense handle {} is (slot {}, gen {}) but slot {} (gen {}) points to it", di, key >> 8, ever, i, ver));
@@ -503,8 +535,8 @@ pub fn rep_invariant(d: &VerifDump, arch_id: u8) -> Result<(), String> {
             return Err(format!("dense handle {} carries archetype id {} instead of {}", di, key as u8, arch_id));
         }
     }
-    if dense_seen.len() != d.len {
-        return Err(format!("{} live slots for {} dense entries", dense_seen.len(), d.len));
+    if dense_n != d.len {
+        return Err(format!("{} live slots for {} dense entries", dense_n, d.len));
     }
     Ok(())
 }
